@@ -501,7 +501,46 @@ def r04_7(ctx: Ctx) -> None:
            "every pair of parts takes part in the minimum (no early exit from the pair loops)", form="")
 
 
+def r04_8(ctx: Ctx) -> None:
+    """ offset_location re-joins parts that abut after the shift (the two halves of a part that was split at the origin):
+        each part is compared with the *last merged* part, so a run of three abutting parts is joined into one """
+    from .c13 import _tracks_last_kept
+    qual = "offset_location"
+    func = ctx.fn(LOC, qual)
+    cfg = CFG(func)
+    done = False
+    for loop in [n for n in walk_local(func) if isinstance(n, ast.For) and isinstance(n.target, ast.Name)]:
+        stores = [n for n in walk_local(loop) if isinstance(n, ast.Assign) and isinstance(n.targets[0], ast.Subscript)
+                  and txt(n.targets[0].slice) == "-1"]
+        if not stores:
+            continue
+        kept = txt(stores[0].targets[0].value)
+        cur = loop.target.id
+        prev_names = {n.value.id for n in walk_local(loop) if isinstance(n, ast.Attribute) and n.attr in ("end", "start")
+                      and isinstance(n.value, ast.Name) and n.value.id not in (cur,)}
+        prev_names = {p for p in prev_names if any(isinstance(x, ast.Compare) and p in txt(x) and cur in txt(x) for x in walk_local(loop))}
+        if len(prev_names) != 1:
+            # the partner is read from the list itself
+            direct = any(isinstance(x, ast.Compare) and f"{kept}[-1]" in txt(x) and cur in txt(x) for x in walk_local(loop))
+            ctx.ob("R04.8", LOC, loop, qual, "abutting parts join the last merged part", direct,
+                   "after the shift a part is joined to the last merged part when it starts where that one ends", form="reads the list's last element")
+            done = True
+            continue
+        prev = sorted(prev_names)[0]
+        ok, why = _tracks_last_kept(cfg, func, loop, prev, kept)
+        ctx.ob("R04.8", LOC, loop, qual, "abutting parts join the last merged part", ok,
+               "after the shift a part is joined to the last merged part when it starts where that one ends; comparing with the "
+               "previous *input* part instead loses the start of a run of three abutting parts",
+               detail="" if ok else why + " - join{[850:900),[900:1000),[0:100)} shifted by -800 on a ring of 1000 becomes [100:300) "
+               "instead of [50:300)", form=why)
+        done = True
+    if not done:
+        raise AnalysisError(f"{qual}: the loop merging abutting parts was not found")
+
+
 def run(ctx: Ctx) -> None:
+    ctx.rule("R04.8", "parts abutting after a shift are merged with the last merged part", floor=1)
+    r04_8(ctx)
     ctx.rule("R04.1", "overlap / containment base cases agree with the set-of-bases model", floor=2)
     ctx.rule("R04.2", "lifting of overlap / containment to multi-part locations", floor=6)
     ctx.rule("R04.3", "ring-end idiom for exclusive ends reduced modulo the ring length", floor=3)
